@@ -303,7 +303,13 @@ func reflectOnce(h *vh.H, op string, fds *descriptorpb.FileDescriptorSet) string
 			}
 		}
 		dupClient = append(dupClient, dup)
-		cres = append(cres, vh.Hex([]byte(sn))+":"+class+":"+rootClass+":cp="+cpDump)
+		envDump := "-"
+		if class == "ok" {
+			if _, panicked, _ := guard(func() { envDump = envRoot(root, md) }); panicked {
+				envDump = "!"
+			}
+		}
+		cres = append(cres, vh.Hex([]byte(sn))+":"+class+":"+rootClass+":cp="+cpDump+":env="+envDump)
 	}
 	// codec: empty + one field at a time for every message; the all-fields case only when nothing
 	// failed before (it would repeat a per-field finding under a broader signature)
